@@ -8,6 +8,9 @@ From ST Require Import Base.Outcome Base.Units Fmt.Strtol Fmt.StrtolProofs Fmt.S
 Import ListNotations.
 Local Open Scope N_scope.
 
+Lemma bindW_lift_ok {A B} (x : A) (k : A -> W B) : bindW (liftW (Ok x)) k = k x.
+Proof. unfold bindW, liftW. destruct (k x). reflexivity. Qed.
+
 Section Fmt.
 Variable fmt : list N.
 Hypothesis Hnz : Forall (fun b => b <> 0) fmt.
@@ -106,28 +109,28 @@ Proof.
     split; [exact H1|]. split; [lia|]. split; [exact H3|].
     rewrite bytes_of_app. unfold bytes_of at 1. cbn [flat_map event_bytes]. rewrite app_nil_r, <- app_assoc, H4.
     rewrite (slice_one (S next) c t1 Et). reflexivity. }
-  rewrite Hat. unfold bindW at 1. cbn [liftW]. cbn [app]. rewrite E0.
+  rewrite Hat, bindW_lift_ok, E0.
   cbn [lit_prefix].
   destruct (c =? 123) eqn:E1.
   { rewrite Hat1. destruct t as [|c1 t1] eqn:Et2.
     - (* '{' then the terminator: a field starts here (and is unterminated) *)
-      unfold bindW at 1. cbn [liftW app]. change (negb (0 =? 123)) with true. cbv iota.
+      rewrite bindW_lift_ok. change (negb (0 =? 123)) with true. cbv iota.
       exists [], m, next. split; [reflexivity|]. split; [lia|]. split; [lia|].
       cbn [fst snd]. rewrite El, app_nil_r. auto.
-    - unfold bindW at 1. cbn [liftW app].
+    - rewrite bindW_lift_ok.
       destruct (c1 =? 123) eqn:E2; cbn [negb]; cbv iota.
       + destruct (lit_prefix t1) as [b r] eqn:Elp. cbn [fst snd].
         assert (Hcc : c1 = c) by lia.
         destruct (Hdbl c1 t1 b r eq_refl Hcc Elp) as [tr [m' [n' [Hr [H1 [H2 [H3 H4]]]]]]].
-        exists tr, m', n'. assert (c = 123) by lia. subst c. auto.
+        exists tr, m', n'. repeat split; try assumption; try lia. rewrite H4. f_equal. f_equal. lia.
       + exists [], m, next. split; [reflexivity|]. split; [lia|]. split; [lia|].
         cbn [fst snd]. rewrite El, app_nil_r. auto. }
   destruct (c =? 125) eqn:E3.
   { rewrite Hat1. assert (c = 125) by lia. subst c. destruct t as [|c1 t1] eqn:Et2.
-    - unfold bindW at 1. cbn [liftW app]. change (0 =? 125) with false. cbv iota.
+    - rewrite bindW_lift_ok. change (0 =? 125) with false. cbv iota.
       destruct (Hstep [] [] eq_refl) as [tr [m' [n' [Hr [H1 [H2 [H3 H4]]]]]]].
       exists tr, m', n'. cbn [fst snd]. auto.
-    - unfold bindW at 1. cbn [liftW app].
+    - rewrite bindW_lift_ok.
       destruct (c1 =? 125) eqn:E4.
       + destruct (lit_prefix t1) as [b r] eqn:Elp. cbn [fst snd].
         assert (Hcc : c1 = 125) by lia.
